@@ -11,7 +11,7 @@ miss = n - fi - nf
 strengthened = sum(1 for m in metas if m.get("check_result_before_strengthening"))
 head = f"""## 11. Seeded changes and which check catches them
 
-{n} changes to /repo (three per property for all 36 properties, plus two more for twelve of them in a later round with the extra guidance quoted in `docs/MUTANT_PROMPT.txt`) were written by fresh sub-agents that were given only the text
+{n} changes to /repo (three per property for all 36 properties, plus two more for twenty-four of them in two later rounds with the extra guidance quoted in `docs/MUTANT_PROMPT.txt`) were written by fresh sub-agents that were given only the text
 of one property and a scratch worktree of /repo (prompt: `docs/MUTANT_PROMPT.txt`); each compiles, passes the 35 pinned
 tests, and comes with a demonstration that fails with the change and passes without — all three re-confirmed by me in a
 scratch worktree before the change was stored under `seeded/<id>/m<k>/`. None was ever committed to /repo. The last
@@ -27,7 +27,8 @@ dies is re-run input by input), C31 (machines reset before the compared runs, ti
 reference semantics counts as failing input), C09/C14/C27/C28 (directed boundary programs, frame arguments, denied and
 untracked accesses, strict-mode panics), C34 (seed 0); in the later round: C11 (packed strings ending at a zero low byte
 under a non-zero high byte), C27 (a refused return must not pop; directed call/return programs in strict mode), C28 (the observer
-after a multi-step run against the OR of a twin's single steps).
+after a multi-step run against the OR of a twin's single steps), C02/C01 (labels with non-ASCII letters in two letter cases: a direct
+oracle outside the model's ASCII case folding), C19 (empty blocks inside a partner's block in files that define the partner's external).
 
 """
 s = open(os.path.join(V, "DESIGN.md")).read()
